@@ -408,7 +408,7 @@ def run(ctx, rep):
     # ---- O2
     allowed_blocks = {}  # fn name -> set of blocks whose call edges are cut
     for fn in facts.fns.values():
-        if fn.crate != 'fatfs':
+        if fn.crate not in ('fatfs', 'fatfs-inlined'):  # (an inlined closure keeps its instances in the call graph)
             continue
         s = option_guarded_blocks(fn, 'update_accessed_date', 'FsOptions')
         if fn.name == 'fatfs::fs::FileSystem::stats':
